@@ -6,7 +6,7 @@ package indexes_test
 //
 // This file: the drivers (which exported entry points are called on each input, as named steps) and
 // the test entry points.  Every case runs in a child process (zzverif/c12kit): each step under
-// recover() with an allocation meter, RLIMIT_AS 8 GiB, journal-based attribution of deaths, a
+// recover() with an allocation meter, RLIMIT_AS (2 GiB above the footprint of the child), journal-based attribution of deaths, a
 // read-syscall budget and a wall-clock watchdog (inconclusive only).
 //
 // Oracle, per step: no panic, no process death, heap allocation during the step <= 256 MiB for an
@@ -205,7 +205,11 @@ func c12DriveCar(c *c12kit.Case, s *c12kit.Stepper) {
 	s.Do("carreader.ReadHeader", func() error { _, err := carreader.ReadHeader(bytes.NewReader(in)); return err })
 	var hdrOK bool
 	var cr0 *carreader.CarReader
-	if s.Do("carreader.New", func() (err error) { cr0, err = carreader.New(io.NopCloser(bytes.NewReader(in))); hdrOK = err == nil; return }) {
+	if s.Do("carreader.New", func() (err error) {
+		cr0, err = carreader.New(io.NopCloser(bytes.NewReader(in)))
+		hdrOK = err == nil
+		return
+	}) {
 		s.Do("carreader.CarReader.HeaderSize", func() error { _, err := cr0.HeaderSize(); return err })
 	}
 	if !hdrOK {
